@@ -158,7 +158,7 @@ func dummyMultipartFile(genpkg string, root *expr.RootExpr, svc *expr.HTTPServic
 		data := HTTPServices.Get(svc.Name())
 		specs = append(specs, &codegen.ImportSpec{
 			Path: path.Join(genpkg, data.Service.PathName),
-			Name: scope.Unique(data.Service.PkgName, "svc"),
+			Name: data.Service.PkgName, // the name the generated references use; reserved in scope above
 		})
 
 		apiPkg := scope.Unique(strings.ToLower(codegen.Goify(root.API.Name, false)), "api")
